@@ -225,6 +225,21 @@ def make_batch(c):
     return f, d, vd, depth, ded, mk
 
 
+def twin_run(wi, args, guess):
+    """run the repo's own solver source as plain Python on the jitted balance function with the same arguments as the
+    inversion; returns (x or None, the roughness memory list as the solver left it, evaluation points)"""
+    pts = []
+
+    def F(u, *a):
+        pts.append(float(u))
+        return wi._u10_iteration_function(u, *a)
+    try:
+        x = NR.py_func(F, guess, args, (0, np.inf), 100, True, 1.0e-2, 1.0, 1e-3)
+        return float(x), args[0], pts
+    except Exception:  # noqa
+        return None, args[0], pts
+
+
 def classify_nan(wi, args, guess):
     """why did the inversion give NaN?  Re-run the repo's own solver source as plain Python (py_func) on the
     jitted balance function and report whether the balance function itself raised at a visited iterate."""
@@ -326,6 +341,18 @@ def run_real(c):
                 Ft = [Fval(ui + 0.01, di, mem), Fval(ui, di, mem), Fval(ui - 0.01, di, mem)][::-1]
                 pt["F_warm"] = True
             pt["F"] = hxl(Ft)
+            # the balance as the inversion itself saw it: the roughness solver is started from the roughness remembered
+            # along the solver's path (the stress balance can have several roots; a fresh start may find another one)
+            xt, memw, evs = twin_run(wi, args_for(float(mdir[i]), [-1.0]), float(guess[i]))
+            pt["twin_passes"] = len(evs)
+            # the run ended with a step of exactly zero: the returned value is an iterate that had been evaluated before
+            pt["zero_step"] = bool(xt is not None and any(e == xt for e in evs[-2:]))
+            if xt is not None and abs(xt - ui) <= 1e-9 * max(1.0, abs(ui)):
+                order = (0.0, -0.01, 0.01, -0.02, 0.02, -0.05, 0.05)
+                vals = {dd: Fval(ui + dd, di, memw) for dd in order}
+                pt["Fw"] = hxl([vals[-0.05], vals[-0.02], vals[-0.01], vals[0.0], vals[0.01], vals[0.02], vals[0.05]])
+            else:
+                pt["twin_x"] = hx(xt) if xt is not None else "none"
             # the same balance from the public API
             one = mk(vd, [i])
             dims = res["u10"].dims
